@@ -48,6 +48,43 @@ func assertContainer[S any](t hseq.Type[S]) {
 	if cat.Kind() != reflect.Struct {
 		panic(fmt.Errorf("invalid type: Lens container %s is not a struct", cat))
 	}
+
+	if !inlined(cat, t) {
+		panic(fmt.Errorf("invalid type: field %s is not stored inside %s, it is reached through an embedded pointer", t.Name, cat))
+	}
+}
+
+// inlined reports whether the entry t of the unfolded struct is stored in the
+// memory of the struct itself. Fields of a struct embedded by pointer are listed
+// by hseq too, but their offsets are relative to another allocation.
+// The walk mirrors hseq's depth-first unfolding, t.ID is the position in it.
+func inlined[S any](cat reflect.Type, t hseq.Type[S]) bool {
+	id := 0
+
+	var walk func(reflect.Type, bool) (bool, bool)
+	walk = func(cat reflect.Type, direct bool) (bool, bool) {
+		for i := 0; i < cat.NumField(); i++ {
+			fv := cat.Field(i)
+			if id == t.ID {
+				return true, direct && fv.Name == t.Name && fv.Type == t.Type
+			}
+			id++
+
+			ft := fv.Type
+			if ft.Kind() == reflect.Ptr {
+				ft = ft.Elem()
+			}
+			if fv.Anonymous && ft.Kind() == reflect.Struct {
+				if found, ok := walk(ft, direct && fv.Type.Kind() != reflect.Ptr); found {
+					return true, ok
+				}
+			}
+		}
+		return false, false
+	}
+
+	_, ok := walk(cat, true)
+	return ok
 }
 
 type lens[S, A any] struct{ hseq.Type[S] }
